@@ -444,8 +444,14 @@ def body_misc(c, ctx):
     before = mhash(m)
     if what == 'extrude':
         z = np.array(c['z'])
-        zz = z[::-1].copy() if c['zperm'] else z
-        line = skfem.MeshLine(zz) if not c['zperm'] else skfem.MeshLine(zz, np.vstack([np.arange(len(z) - 1), np.arange(1, len(z))]))
+        if c['zperm']:
+            # the same 1-D mesh with its vertices numbered in another order (explicit connectivity)
+            perm = np.random.RandomState(c['extra'] + len(z)).permutation(len(z))
+            zz = z[perm]
+            inv = np.argsort(perm)
+            line = skfem.MeshLine(zz, np.vstack([inv[:-1], inv[1:]]))
+        else:
+            line = skfem.MeshLine(z)
         new = m * line
         vol = geom.cell_measures(m).sum() * (z.max() - z.min())
         vn = geom.cell_measures(new)
